@@ -10,6 +10,7 @@ import (
 
 	"github.com/graphql-go/graphql"
 	"github.com/graphql-go/graphql/gqlerrors"
+	"github.com/graphql-go/graphql/language/ast"
 
 	"verif/explore"
 	"verif/h/bridge"
@@ -417,9 +418,20 @@ func (v *env) account(x *explore.X, space, text string, d *gen.Doc, withDo bool,
 // classify: no known findings at present.
 func classify(v *env, d *gen.Doc, text string, vd verdict) string { return "" }
 
-func (v *env) genDoc(x *explore.X, depth int, muts int) (*gen.Doc, []string) {
+func (v *env) genDoc(x *explore.X, depth int, muts int, root string) (*gen.Doc, []string) {
 	g := &gen.DocGen{S: v.s, X: x, MaxDepth: depth, MaxSibs: 3}
+	switch root {
+	case "mutation":
+		g.RootType, g.RootKind = v.s.Mutation, root
+	case "subscription":
+		g.RootType, g.RootKind = v.s.Subscription, root
+	}
 	d := g.Query()
+	return d, v.edit(x, d, muts)
+}
+
+// edit applies up to muts injected edits chosen by the explorer.
+func (v *env) edit(x *explore.X, d *gen.Doc, muts int) []string {
 	var names []string
 	for i := 0; i < muts; i++ {
 		ms := mutations(v.s, d)
@@ -430,7 +442,146 @@ func (v *env) genDoc(x *explore.X, depth int, muts int) (*gen.Doc, []string) {
 		ms[k-1].apply()
 		names = append(names, ms[k-1].name)
 	}
-	return d, names
+	return names
+}
+
+// rootless space: a schema with a query type only; operations of the other kinds have no
+// root type, so every rule runs without type information below them.
+var rootlessBase = []string{
+	`mutation {m1}`,
+	`subscription S {s {x}}`,
+	`mutation M($v: Boolean!) {m1 @skip(if: $v) m3 {x ...F}} fragment F on O {y}`,
+	`{a} mutation N {zzz ...G} fragment G on Mutation {m1}`,
+	`query Q {o {x}} subscription T {t ... on Subscription {t}}`,
+}
+
+func rootlessSchema() *gen.Schema {
+	s := gen.KitchenArgs()
+	var order []string
+	for _, n := range s.Order {
+		if n != s.Mutation && n != s.Subscription {
+			order = append(order, n)
+		}
+	}
+	s.Order = order
+	delete(s.Types, s.Mutation)
+	delete(s.Types, s.Subscription)
+	s.Mutation, s.Subscription = "", ""
+	return s
+}
+
+// fromText builds the generator's document structure from a text through the library's
+// parser (whose AST is C03's business).
+func fromText(text string) (*gen.Doc, error) {
+	doc, err := execx.Parse(text)
+	if err != nil {
+		return nil, err
+	}
+	var value func(v ast.Value) gen.Value
+	value = func(v ast.Value) gen.Value {
+		switch n := v.(type) {
+		case *ast.Variable:
+			return gen.VarV(n.Name.Value)
+		case *ast.IntValue:
+			return gen.Value{Kind: gen.VInt, S: n.Value}
+		case *ast.FloatValue:
+			return gen.FloatV(n.Value)
+		case *ast.StringValue:
+			return gen.StrV(n.Value)
+		case *ast.BooleanValue:
+			return gen.BoolV(n.Value)
+		case *ast.EnumValue:
+			return gen.EnumV(n.Value)
+		case *ast.ListValue:
+			out := gen.Value{Kind: gen.VList}
+			for _, it := range n.Values {
+				out.Items = append(out.Items, value(it))
+			}
+			return out
+		case *ast.ObjectValue:
+			out := gen.Value{Kind: gen.VObject}
+			for _, f := range n.Fields {
+				out.Fields = append(out.Fields, gen.Arg{Name: f.Name.Value, Val: value(f.Value)})
+			}
+			return out
+		}
+		return gen.Value{}
+	}
+	args := func(as []*ast.Argument) []gen.Arg {
+		var out []gen.Arg
+		for _, a := range as {
+			out = append(out, gen.Arg{Name: a.Name.Value, Val: value(a.Value)})
+		}
+		return out
+	}
+	dirs := func(ds []*ast.Directive) []gen.Dir {
+		var out []gen.Dir
+		for _, d := range ds {
+			out = append(out, gen.Dir{Name: d.Name.Value, Args: args(d.Arguments)})
+		}
+		return out
+	}
+	var typ func(t ast.Type) *gen.TypeRef
+	typ = func(t ast.Type) *gen.TypeRef {
+		switch n := t.(type) {
+		case *ast.Named:
+			return gen.Named(n.Name.Value)
+		case *ast.List:
+			return gen.ListOf(typ(n.Type))
+		case *ast.NonNull:
+			return gen.NonNull(typ(n.Type))
+		}
+		return nil
+	}
+	var sels func(ss *ast.SelectionSet) []*gen.Sel
+	sels = func(ss *ast.SelectionSet) []*gen.Sel {
+		if ss == nil {
+			return nil
+		}
+		var out []*gen.Sel
+		for _, x := range ss.Selections {
+			switch n := x.(type) {
+			case *ast.Field:
+				s := &gen.Sel{Kind: gen.SField, Name: n.Name.Value, Args: args(n.Arguments), Dirs: dirs(n.Directives), Sel: sels(n.SelectionSet)}
+				if n.Alias != nil {
+					s.Alias = n.Alias.Value
+				}
+				out = append(out, s)
+			case *ast.InlineFragment:
+				s := &gen.Sel{Kind: gen.SInline, Dirs: dirs(n.Directives), Sel: sels(n.SelectionSet)}
+				if n.TypeCondition != nil {
+					s.HasCond, s.Cond = true, n.TypeCondition.Name.Value
+				}
+				out = append(out, s)
+			case *ast.FragmentSpread:
+				out = append(out, &gen.Sel{Kind: gen.SSpread, Name: n.Name.Value, Dirs: dirs(n.Directives)})
+			}
+		}
+		return out
+	}
+	d := &gen.Doc{}
+	for _, def := range doc.Definitions {
+		switch n := def.(type) {
+		case *ast.OperationDefinition:
+			op := &gen.Op{Kind: n.Operation, Dirs: dirs(n.Directives), Sel: sels(n.SelectionSet)}
+			if n.Name != nil {
+				op.Name = n.Name.Value
+			}
+			for _, vd := range n.VariableDefinitions {
+				g := &gen.VarDef{Name: vd.Variable.Name.Value, Type: typ(vd.Type)}
+				if vd.DefaultValue != nil {
+					dv := value(vd.DefaultValue)
+					g.Default = &dv
+				}
+				op.Vars = append(op.Vars, g)
+			}
+			op.Short = n.Operation == "query" && op.Name == "" && len(op.Vars) == 0 && len(op.Dirs) == 0 && !strings.HasPrefix(strings.TrimSpace(text[n.Loc.Start:]), "query")
+			d.Ops = append(d.Ops, op)
+		case *ast.FragmentDefinition:
+			d.Frags = append(d.Frags, &gen.Frag{Name: n.Name.Value, Cond: n.TypeCondition.Name.Value, Dirs: dirs(n.Directives), Sel: sels(n.SelectionSet)})
+		}
+	}
+	return d, nil
 }
 
 // literal space: every argument type of g x a menu of literals, and variables of a menu of
@@ -617,20 +768,54 @@ func run(c *core.Ctx) {
 	c.R.Bounds["topology_menu"] = c.Pick(topoQuickMenu, len(topoMenu))
 	f.W.Alphabet = nil
 
-	// (a) generator documents with injected edits
-	{
-		e := c.Explorer(docDev + nmut)
+	// (a) generator documents with injected edits, for every kind of operation
+	for _, root := range []string{"query", "mutation", "subscription"} {
+		root := root
+		dev := docDev
+		if root != "query" {
+			dev--
+		}
+		e := c.Explorer(dev + nmut)
 		e.ShardLevel = 1
 		e.Run(func(x *explore.X, owned bool) uint64 {
 			f.W.X = x
-			d, names := v.genDoc(x, 2, nmut)
+			d, names := v.genDoc(x, 2, nmut, root)
 			text := d.Render()
 			if !owned {
 				return report.H(text)
 			}
-			return v.account(x, "edits", text, d, true, map[string]interface{}{"space": "edits", "choices": x.Trace(), "nmut": nmut, "edits": names})
+			return v.account(x, "edits", text, d, true, map[string]interface{}{"space": "edits", "choices": x.Trace(), "nmut": nmut, "edits": names, "root": root})
 		})
 		c.Absorb(e)
+	}
+	// (e) operations without a root type
+	{
+		s2 := rootlessSchema()
+		f2, err := execx.NewFixture(s2, bridge.Options{})
+		if err != nil {
+			c.R.HarnessError("rootless fixture: %v", err)
+			return
+		}
+		v2 := &env{c: c, f: f2, s: s2}
+		for bi, base := range rootlessBase {
+			bi, base := bi, base
+			e := c.Explorer(nmut)
+			e.Run(func(x *explore.X, owned bool) uint64 {
+				f2.W.X = x
+				d, perr := fromText(base)
+				if perr != nil {
+					c.R.HarnessError("rootless base %d: %v", bi, perr)
+					return 0
+				}
+				names := v2.edit(x, d, nmut)
+				text := d.Render()
+				if !owned {
+					return report.H(text)
+				}
+				return v2.account(x, "rootless", text, d, true, map[string]interface{}{"space": "rootless", "base": bi, "choices": x.Trace(), "nmut": nmut, "edits": names})
+			})
+			c.Absorb(e)
+		}
 	}
 	// (b) literals and variables
 	{
@@ -728,7 +913,21 @@ func replay(c *core.Ctx, p map[string]interface{}) (bool, string) {
 	case "edits":
 		explore.Replay(choices, 0, func(x *explore.X, owned bool) uint64 {
 			f.W.X = x
-			d, _ = v.genDoc(x, 2, num("nmut"))
+			root, _ := p["root"].(string)
+			d, _ = v.genDoc(x, 2, num("nmut"), root)
+			return 0
+		})
+	case "rootless":
+		s = rootlessSchema()
+		f, err = execx.NewFixture(s, bridge.Options{})
+		if err != nil {
+			return false, err.Error()
+		}
+		v = &env{c: c, f: f, s: s}
+		explore.Replay(choices, 0, func(x *explore.X, owned bool) uint64 {
+			f.W.X = x
+			d, _ = fromText(rootlessBase[num("base")])
+			v.edit(x, d, num("nmut"))
 			return 0
 		})
 	case "literals":
